@@ -104,6 +104,9 @@ def run(ctx, bt, scale=1):
                           make_spec=lambda rng: R.gen_run_spec(rng, nested=rng.random() < 0.5))
         run_steps_protocol(ctx, bt, ctx.scale(6, 150), None, "run-steps[C04]:fixed-income:data-truncated-at-clock", trunc=True,
                            make_spec=FI.gen_program, build=FI.build_program)
+        # the program model the whole-backtest theorems (`prog_backtest_causal`) speak about, executed end to end
+        from .. import whole_run as W
+        W.whole_run_protocol(ctx, bt, ctx.scale(15, 300), "whole-run[C04]")
 
 
 def search(ctx, bt):
